@@ -1,0 +1,44 @@
+//! Verification hooks, compiled only with the `verif` feature.
+//! Exposes read-only snapshots of the client context's internal state to an
+//! external monitoring harness. Nothing here is used by the library itself.
+
+use std::cell::{Cell, RefCell};
+
+/// Copy of the context's flow-control and session bookkeeping, taken after
+/// each processed packet or handle message.
+#[derive(Clone, Debug, PartialEq, Eq)]
+pub struct StateSnapshot {
+    /// Remaining send quota.
+    pub send_quota: u16,
+    /// Receive Maximum announced by the server.
+    pub receive_maximum: u16,
+    /// Maximum Packet Size announced by the server.
+    pub max_packet_size: Option<u32>,
+    /// Keys of the operations awaiting an acknowledgement.
+    pub awaiting_ack: Vec<usize>,
+    /// Subscription identifiers with a registered stream.
+    pub subscriptions: Vec<usize>,
+    /// Keys of the packets queued for retransmission.
+    pub retransmit: Vec<usize>,
+}
+
+thread_local! {
+    static ENABLED: Cell<bool> = Cell::new(false);
+    static LOG: RefCell<Vec<StateSnapshot>> = RefCell::new(Vec::new());
+}
+
+/// Turns snapshot recording on or off for the current thread (off by default).
+pub fn enable(on: bool) {
+    ENABLED.with(|e| e.set(on));
+}
+
+/// Returns and clears the snapshots recorded on the current thread.
+pub fn drain() -> Vec<StateSnapshot> {
+    LOG.with(|l| std::mem::take(&mut *l.borrow_mut()))
+}
+
+pub(crate) fn push(make: impl FnOnce() -> StateSnapshot) {
+    if ENABLED.with(|e| e.get()) {
+        LOG.with(|l| l.borrow_mut().push(make()));
+    }
+}
